@@ -15,11 +15,11 @@ CHECKS = {
    note="Trusted: E1 encoder (canaries + native differential), floats as reals, rgen.random() in [0,1), np.argmax contract, A-DET (weight-only mode is a function of its inputs), maths lemmas L1/L2/L5 (cardinality of disjoint intervals, mirror invariance, uniform law) not mechanised.",
    design="5/C10"),
  "C09": dict(level="other", technique=E1,
-   text="EngineBase.add_to_path is proved against an exact iff-specification of the stop/success rule; shoot() is executed symbolically on the real AST for every start condition and both length-limit branches: each ACC outcome satisfies Valid(path, ensemble) from the property text, accept iff status ACC, old path and all pre-existing frames untouched on every outcome, shooting index interior, shooting point contained and time-consistent, and the u <= n_old/n_new threshold (refuted on two input classes recorded as known findings, replayed natively through the real code).",
-   note="Assumed: the RESULT contract of engine.propagate for external engines (contracts/engine.py; its stop rule is the proved add_to_path), modify_velocities/calculate_order touch only their System, rgen ranges. Callee summaries paste_paths/__iadd__/copy are proved under C15. wire_fencing/zero-swap clauses are being added (see DESIGN).",
+   text="EngineBase.add_to_path is proved against an exact iff-specification of the stop/success rule; shoot() is executed symbolically on the real AST for every start condition and both length-limit branches: each ACC outcome satisfies Valid(path, ensemble) from the property text, accept iff status ACC, old path and all pre-existing frames untouched on every outcome, shooting index interior, shooting point contained and time-consistent, and the u <= n_old/n_new threshold (refuted on two input classes recorded as known findings, replayed natively through the real code). The zero swap (retis_swap_zero) and the own-ensemble weight (calc_cv_vector) run under the same check. Wire fencing is a chain of contracts each proved against its real body and used as a summary by the next: wirefence_weight_and_pick -> shoot (sub-ensemble) -> extender -> subt_acceptance -> wire_fencing: ACC => starts left, ends outside, interior inside, within maxlength, reaches lambda_i (ghost witness), accept iff ACC, everything that existed before untouched.",
+   note="Assumed: the RESULT contract of engine.propagate for external engines (contracts/engine.py; its stop rule is the proved add_to_path), modify_velocities/calculate_order touch only their System, rgen ranges, order parameter not velocity dependent (wire fencing), cap within [lambda_i, lambda_R]. Callee summaries paste_paths/__iadd__/copy/reverse are proved under C15. wire_fencing is verified for start condition L and n_jumps = 2 (other n_jumps only in the bounded native cross-check); run_md/select_shoot dispatch not under contract.",
    design="5/C09"),
  "C11": dict(level="other", technique=E1,
-   text="retis_swap_zero is executed symbolically on the real AST (plain, lambda_-1, wire-fencing variants): on ACC the junction frames are exactly the two crossing frames of the other old path, both new paths satisfy Valid(path, ensemble), accept iff status ACC, lambda_-1 left-ending paths are rejected without any propagate call, nothing pre-existing is written. One measure-zero known finding (ties at lambda_0). Reversibility needs an engine premise and quantis_swap_zero is not yet under contract, hence 'other'.",
+   text="retis_swap_zero is executed symbolically on the real AST (plain, lambda_-1, wire-fencing variants): on ACC the junction frames are exactly the two crossing frames of the other old path, both new paths satisfy Valid(path, ensemble), accept iff status ACC, lambda_-1 left-ending paths are rejected without any propagate call, nothing pre-existing is written. One measure-zero known finding (ties at lambda_0). quantis_swap_zero: accept iff ACC, frames untouched, status QEA exactly when u > min(1, exp(dV0*beta0 - dV1*beta1)) on the four energies the rule is defined on (exp and the two products uninterpreted). Reversibility needs an engine premise, hence 'other'.",
    note="Assumed: engine.propagate RESULT contract (stop rule = proved add_to_path), both ensembles share one tis_set (same maxlength), old paths valid with >= 3 frames. Summaries of Path.__iadd__/copy/compute_weight/high_acc_swap proved under C15/C10.",
    design="5/C11"),
  "C17": dict(level="other", technique=E1,
